@@ -61,11 +61,14 @@ pub struct Gen {
     pub profile: &'static str,
     pub phase: u32,
     pub fresh_key: u64,
+    pub target_buckets: usize,
 }
 
 impl Gen {
     pub fn new(seed: u64, universe: u64, profile: &'static str) -> Self {
-        Gen { rng: Rng::new(seed), universe, next_id: 1, profile, phase: 0, fresh_key: 0 }
+        let mut rng = Rng::new(seed);
+        let target_buckets = *rng.pick(&[16usize, 16, 32, 32, 64, 128]);
+        Gen { rng, universe, next_id: 1, profile, phase: 0, fresh_key: 0, target_buckets }
     }
     fn id(&mut self) -> u64 {
         let i = self.next_id;
@@ -120,6 +123,48 @@ impl Gen {
                 }
             }
             "saturate" => self.saturate(r),
+            "reserve" => {
+                // capacity API under load: boundary-dense reserve / try_reserve / shrink_to
+                let x = self.rng.below(100);
+                let d = r.dump("a");
+                let cap = (d.items + d.growth_left) as u64;
+                let k = self.key();
+                if x < 30 {
+                    format!("a {}", self.insert(k))
+                } else if x < 40 {
+                    format!("a remove {}", k)
+                } else if x < 65 {
+                    let n = match self.rng.below(8) {
+                        0 => 0,
+                        1 => d.growth_left as u64,
+                        2 => d.growth_left as u64 + 1,
+                        3 => cap + self.rng.below(3),
+                        4 => self.rng.below(4 * (cap + 1)),
+                        5 => u64::MAX - self.rng.below(3),
+                        6 => (i64::MAX as u64) / *self.rng.pick(&[1u64, 2, 16, 32, 33]) + self.rng.below(3),
+                        _ => (1u64 << (3 + self.rng.below(10))) / 8 * 7 + self.rng.below(3),
+                    };
+                    format!("a try_reserve {}", n)
+                } else if x < 75 {
+                    format!("a reserve {}", self.rng.below(3 * (cap + 2)))
+                } else if x < 88 {
+                    let m = match self.rng.below(4) {
+                        0 => 0,
+                        1 => d.items as u64,
+                        2 => self.rng.below(2 * (cap + 1)),
+                        _ => cap + self.rng.below(5),
+                    };
+                    format!("a shrink_to {}", m)
+                } else if x < 92 {
+                    "a shrink_to_fit".to_string()
+                } else if x < 95 {
+                    format!("a with_capacity {}", self.rng.below(100))
+                } else if x < 97 {
+                    "a clear".to_string()
+                } else {
+                    format!("a drain {} 0", self.rng.below(6))
+                }
+            }
             _ => self.mixed(r),
         }
     }
@@ -131,7 +176,7 @@ impl Gen {
         let cap = hashbrown::verif::bucket_mask_to_capacity(d.bucket_mask);
         match self.phase {
             0 => {
-                if !d.is_singleton && d.growth_left == 0 {
+                if !d.is_singleton && d.growth_left == 0 && d.bucket_mask + 1 >= self.target_buckets {
                     self.phase = 1;
                     return self.saturate(r);
                 }
